@@ -12,7 +12,10 @@ for s in "${SEEDS[@]}"; do
     if [ -n "$s" ]; then out=$(VERIF_SEED=$s VERIF_ROOT_OVERRIDE=/dev/shm/sweep-$$ ./check $id $TIER 2>&1); else out=$(./check $id $TIER 2>&1); fi
     rc=$?
     echo "rc=$rc seed=${s:-default} $(echo "$out" | grep -E "^C[0-9]+ tier=" | tail -1)"
-    if [ $rc -ne 0 ]; then bad=1; echo "$out" | grep -E "VIOLATION|BROKEN|KNOWN" | head -5; fi
+    if [ $rc -ne 0 ]; then bad=1; echo "$out" | grep -E "VIOLATION|BROKEN|KNOWN" | head -5
+      # keep the replay files of a failing run (the scratch root is removed below)
+      mkdir -p replays-sweep && cp -r /dev/shm/sweep-$$/replays/. replays-sweep/ 2>/dev/null
+    fi
   done
 done
 rm -rf /dev/shm/sweep-$$
